@@ -75,6 +75,6 @@ SymAfterAllFetches == symSeen > 0 => pending = {}
 SymOnce == symSeen <= 1 /\ (phase \in {"session", "done"} => symSeen = 1)
 ErrorOnlyIfNothingFetched == phase = "error" <=> (pending = {} /\ phase # "fetch" /\ ~\E i \in DOMAIN srcs : srcs[i].ok)
 \* cum >= flat for non-negative values, flat of all functions sums to the kept total
-RowsConsistent == \A r \in lastReport : r.cum >= r.flat
+RowsConsistent == \A r \in lastReport : r.rawcum >= r.rawflat
 PristineNeverChanges == [][prof # NoProf => prof' = prof]_vars
 =============================================================================
